@@ -752,6 +752,39 @@ def check_state_through_callees(ctx: Ctx):
     ctx.ok("R15.6", None, None, "state-through-callees:package", f"no method hands a list attribute to one of the {n_writers} functions that modify a list parameter in place", {"list_writers": sorted(q for q, w in written.items() if w)[:12]}, nontrivial=False)
 
 
+def _use_reachable(prog) -> set:
+    """quals of the functions reachable (resolved calls, transitively) from what 'use' of the package runs:
+    evaluation entry points, matching / approximation, the aggregator's methods, statistics queries, saving and
+    loading of configurations.  Constructors are not roots: what a constructor (and the private helpers only it and
+    editing methods call) writes is the object being built; what building one object does to ANOTHER is decided
+    by R15.3 on abstract runs."""
+    cache = prog.__dict__.get("_use_reachable")
+    if cache is not None:
+        return cache
+    roots = []
+    for f in prog.package_functions():
+        if f.parent is not None:
+            continue
+        n = f.name
+        if n in ("__call__",) or n.startswith(("evaluate", "panoptic_evaluate", "match_instances", "_match_instances", "approximate_instances", "_approximate_instances", "make_statistic", "get", "calculate", "to_dict", "save_to_config", "load_from_config", "_yaml_repr", "to_yaml", "from_yaml", "print_summary", "make_curve", "make_autc")) or (f.cls is None and not n.startswith("_")):
+            roots.append(f)
+    seen = {f.qual for f in roots}
+    work = list(roots)
+    while work:
+        g = work.pop()
+        for c in prog.calls_in(g):
+            try:
+                hs = prog.resolve_call(g, c)
+            except Exception:
+                hs = []
+            for h in hs:
+                if isinstance(h, Func) and h.qual not in seen:
+                    seen.add(h.qual)
+                    work.append(h)
+    prog.__dict__["_use_reachable"] = seen
+    return seen
+
+
 def check_state_writers(ctx: Ctx):
     prog = ctx.prog
     roots = [prog.cls("utils.config:SupportsConfig")]
@@ -807,6 +840,13 @@ def check_state_writers(ctx: Ctx):
                     hit = node.func.value
                 if hit is not None and (hit.attr if isinstance(hit, ast.Attribute) and isinstance(hit.value, ast.Name) else None) in scratch:
                     n += 1
+                    continue
+                if hit is not None and m.qual not in _use_reachable(prog) and m.qual not in SETTER_TABLE and not is_pure_setter(m):
+                    # an editing method of the object's public interface (or its private helper) that no evaluation,
+                    # matching, saving or loading path calls: changing the object is what it is for - "through use"
+                    # (evaluating, constructing other objects, saving) nothing calls it
+                    n += 1
+                    ctx.ok("R15.6", m, node, f"{m.qual}:self.{hit.attr}", "state is changed only by the constructor, setters, and editing methods that no evaluation / save / load path calls", {"stmt": norm(node)[:80], "reason": "editing method outside every evaluation path"}, nontrivial=False)
                     continue
                 if hit is not None:
                     n += 1
